@@ -94,6 +94,9 @@ def seqLine (j : Json) : String :=
       verdict true (SeqSpec.allowed eqv rank pre op impl) "C01/shuffle" "-"
     | _ =>
       let m := step eqv rank pre op
+      -- `stale`: a result handed out earlier changed afterwards, or writing through a
+      -- result reached the receiver (results must be copies)
+      if has j "stale" then verdict true false s!"C01/result-aliased/{str j "stale"}" (obsStr m) else
       verdict (obsAgree m impl) (SeqSpec.allowed eqv rank pre op impl) s!"C01/{str j "op"}" (obsStr m)
 
 end Drv
